@@ -1,4 +1,4 @@
-CONSTANTS Ns <- QuickNs
+CONSTANTS Ns <- ThoroughNs
 INIT Init
 NEXT Next
 INVARIANT NoOOB
